@@ -50,7 +50,7 @@ class C08(GProp):
     files = ['tephra-combinator/src/control.rs', 'tephra-combinator/src/bracket.rs', 'tephra-combinator/src/list.rs', 'tephra/src/context.rs']
     rule = ('seeded random grammars from the C06/C07 family extended with recover / recover_default / delayed variants / stabilize / '
             'bracket* / list* placed only in committed positions (sequences, bracket and list bodies), on valid and invalid random '
-            'texts plus valid bracketed lists with trailing separators whose recovering items contain optional parts (nested sink-less regions); every case is executed twice, with Context::empty and with a collecting sink, and the two implementation runs '
+            'texts plus brackets whose inner parser reads less than the bracket contents, plus valid bracketed lists with trailing separators whose recovering items contain optional parts (nested sink-less regions); every case is executed twice, with Context::empty and with a collecting sink, and the two implementation runs '
             'are compared: (a) sink-less ok => identical value, end position and remaining stream with a sink and nothing reported; '
             '(b) sink ok with nothing reported => identical sink-less ok; (c) sink-less error => the same error returned or as '
             'first diagnostic (transform tags erased); non-trivial = a pair in which the sink-less run succeeds through a recovering '
@@ -77,6 +77,14 @@ class C08(GProp):
                 for si, sg in enumerate(segs):
                     t += sg + (['comma', 'sp'] if si < len(segs) - 1 or r.chance(2, 3) else [])
                 t += ['rk']
+            if i % 8 == 3:
+                # brackets whose inner parser succeeds but reads less than (or exactly, or nothing of) the bracket contents:
+                # a success of the whole parse on which a sink must receive nothing
+                inner = r.choice([['one', 'A'], ['maybe', ['one', 'A']], 'empty', ['repeat', 0, 2, ['one', 'A']], ['seqcount', 'A', 'B']])
+                br = [r.choice(['bracket', 'bracketdef', 'bracketidx', 'bracketdefidx']), ['LK', 'LP'], inner, ['RK', 'RP'], r.choice([[], ['Semi']])]
+                g = r.choice([br, ['both', br, ['maybe', ['one', 'Semi']]], ['both', ['maybe', ['one', 'B']], br], ['listdef', br, 'Comma', ['Semi']]])
+                body = spangen.random_text(r, ['a', 'a', 'b', 'comma', 'sp', 'lk', 'rk'], r.below(5))
+                t = r.choice([[], ['b']]) + ['lk'] + body + ['rk'] + r.choice([[], ['semi'], ['comma', 'lk', 'a', 'rk']])
             # make a good share of the texts valid for simple grammars
             n += 1
             pushed = [1 + r.below(4) for _ in range(r.below(3))]
